@@ -56,15 +56,15 @@ inline void addExt(X509 *cert, X509 *issuer, int nid, const char *value)
   X509_EXTENSION_free(ex);
 }
 
-// days are relative to now; issuer == nullptr -> self-signed
-inline X509 *makeCert(EVP_PKEY *subjectKey, const char *cn, const char *san, bool isCa, X509 *issuer,
-                      EVP_PKEY *issuerKey, long notBeforeDays, long notAfterDays, long serial)
+// seconds are relative to now (as time() reports it); issuer == nullptr -> self-signed
+inline X509 *makeCertSec(EVP_PKEY *subjectKey, const char *cn, const char *san, bool isCa, X509 *issuer,
+                         EVP_PKEY *issuerKey, long notBeforeSec, long notAfterSec, long serial)
 {
   X509 *x = X509_new();
   X509_set_version(x, 2);
   ASN1_INTEGER_set(X509_get_serialNumber(x), serial);
-  X509_gmtime_adj(X509_getm_notBefore(x), 86400L * notBeforeDays);
-  X509_gmtime_adj(X509_getm_notAfter(x), 86400L * notAfterDays);
+  X509_gmtime_adj(X509_getm_notBefore(x), notBeforeSec);
+  X509_gmtime_adj(X509_getm_notAfter(x), notAfterSec);
   X509_set_pubkey(x, subjectKey);
   X509_NAME *name = X509_get_subject_name(x);
   X509_NAME_add_entry_by_txt(name, "O", MBSTRING_ASC, (const unsigned char *)"verif-c07", -1, -1, 0);
@@ -77,6 +77,64 @@ inline X509 *makeCert(EVP_PKEY *subjectKey, const char *cn, const char *san, boo
   if (san) addExt(x, iss, NID_subject_alt_name, san);
   if (!X509_sign(x, issuer ? issuerKey : subjectKey, EVP_sha256())) throw std::runtime_error("X509_sign failed");
   return x;
+}
+
+// days are relative to now
+inline X509 *makeCert(EVP_PKEY *subjectKey, const char *cn, const char *san, bool isCa, X509 *issuer,
+                      EVP_PKEY *issuerKey, long notBeforeDays, long notAfterDays, long serial)
+{
+  return makeCertSec(subjectKey, cn, san, isCa, issuer, issuerKey, 86400L * notBeforeDays, 86400L * notAfterDays, serial);
+}
+
+inline X509 *readCert(const std::string &path)
+{
+  FILE *f = fopen(path.c_str(), "r");
+  if (!f) throw std::runtime_error("cannot read " + path);
+  X509 *x = PEM_read_X509(f, nullptr, nullptr, nullptr);
+  fclose(f);
+  if (!x) throw std::runtime_error("cannot parse " + path);
+  return x;
+}
+inline EVP_PKEY *readKey(const std::string &path)
+{
+  FILE *f = fopen(path.c_str(), "r");
+  if (!f) throw std::runtime_error("cannot read " + path);
+  EVP_PKEY *k = PEM_read_PrivateKey(f, nullptr, nullptr, nullptr);
+  fclose(f);
+  if (!k) throw std::runtime_error("cannot parse " + path);
+  return k;
+}
+
+// a leaf issued NOW by the right CA of `dir` with a validity window given in seconds relative to now (kept in memory:
+// the time-dimension tuples of C07 hand it to the scripted peer directly)
+struct Leaf
+{
+  X509 *cert = nullptr;
+  EVP_PKEY *key = nullptr;
+  X509 *ca = nullptr;
+};
+inline Leaf makeLeafNow(const std::string &dir, const char *cn, const char *san, long notBeforeSec, long notAfterSec)
+{
+  Leaf l;
+  l.ca = readCert(dir + "/ca.pem");
+  EVP_PKEY *caK = readKey(dir + "/ca.key");
+  l.key = newKey();
+  l.cert = makeCertSec(l.key, cn, san, false, l.ca, caK, notBeforeSec, notAfterSec, 1000 + (long)getpid());
+  EVP_PKEY_free(caK);
+  return l;
+}
+// what libcrypto's own verification says about the leaf right now: 0 = ok, otherwise the X509_V_ERR_* code
+inline int verifyNow(const Leaf &l)
+{
+  X509_STORE *st = X509_STORE_new();
+  X509_STORE_add_cert(st, l.ca);
+  X509_STORE_CTX *c = X509_STORE_CTX_new();
+  X509_STORE_CTX_init(c, st, l.cert, nullptr);
+  int r = X509_verify_cert(c);
+  int e = X509_STORE_CTX_get_error(c);
+  X509_STORE_CTX_free(c);
+  X509_STORE_free(st);
+  return r == 1 ? 0 : (e ? e : -1);
 }
 
 inline void writeCert(const std::string &path, X509 *x)
